@@ -602,8 +602,8 @@ func runC07(ctx *Ctx) *Result {
 	rng := NewRng(ctx.Seed)
 	c07UnitCorr(ctx, res, rng.Fork())
 	type treeInfo struct {
-		g     *GenTree
-		known bool
+		g   *GenTree
+		reg c07Regress
 	}
 	trees := make([]treeInfo, p.trees)
 	rngs := make([]*Rng, p.trees)
@@ -611,12 +611,18 @@ func runC07(ctx *Ctx) *Result {
 		rngs[i] = rng.Fork()
 	}
 	parallelFor(p.trees, func(i int) {
-		g, known := c07GenTree(rngs[i], filepath.Join(ctx.Work, fmt.Sprintf("t%d", i)), i)
-		trees[i] = treeInfo{g, known}
+		g, reg := c07GenTree(rngs[i], filepath.Join(ctx.Work, fmt.Sprintf("t%d", i)), i)
+		trees[i] = treeInfo{g, reg}
 	})
 	var cases []c07Case
 	for i, t := range trees {
-		cases = append(cases, c07PickCases(rng, i, t.g.Root, len(t.g.Pkgs), p.casesPerTree)...)
+		cs := c07PickCases(rng, i, t.g.Root, len(t.g.Pkgs), p.casesPerTree)
+		if t.reg.Bl3Pkg != "" && i%2 == 0 {
+			// regression for 7d8fe86: the trace lines about buildlink3 inclusion appear when the package is checked from its own directory with --debug
+			cs[len(cs)-1] = c07Case{Tree: i, Root: t.g.Root, Cwd: t.reg.Bl3Pkg, Args: []string{"-Wall", "-Cglobal", "--debug"}}
+			res.Count("regress.bl3-trace-case", 1)
+		}
+		cases = append(cases, cs...)
 		for k, v := range t.g.Features {
 			if strings.HasPrefix(k, "c07.") || k == "rich" {
 				res.Count("feature."+k, v)
